@@ -34,6 +34,8 @@ def val(a):
         return None
     if a == 201:
         return (1,)
+    if 300 <= a < 400:
+        return float(a - 300)          # equal to the int a - 300, but not the same value
     raise ValueError(a)
 
 
@@ -46,6 +48,8 @@ def atom(v):
         return 200
     if type(v) is tuple and v == (1,):
         return 201
+    if type(v) is float and v == int(v) and 0 <= v < 100:
+        return 300 + int(v)
     return 999          # anything else (a value no case ever offers): a sentinel outside every finite range
 
 
@@ -130,6 +134,10 @@ def arg_list(tl, op, atoms):
         list.clear(c)
         list.extend(c, items)
         return c
+    if op[-1] == "gen":
+        return (x for x in items)          # a one-shot iterable without len()
+    if op[-1] == "tuple":
+        return tuple(items)
     return items
 
 
